@@ -13,7 +13,9 @@ Inductive mtype := MAscii | MWideStandard | MWideAlternate.
 Definition is_wide_mt (t : mtype) : bool := match t with MAscii => false | _ => true end.
 
 Record mods := { m_fullword : bool; m_wide : bool; m_ascii : bool; m_nocase : bool; m_dot_all : bool }.
-Definition flags_of (md : mods) : rflags := {| nocase := m_nocase md; dot_all := m_dot_all md |}.
+(* flags of the searches boreal runs: never `wide` (wide matching goes through `widen_hir`) *)
+Definition flags_of (md : mods) : rflags := {| nocase := m_nocase md; dot_all := m_dot_all md; wide := false |}.
+Definition wide_flags_of (md : mods) : rflags := {| nocase := m_nocase md; dot_all := m_dot_all md; wide := true |}.
 
 (* ---- analysis.rs (the flags the matcher choice reads) *)
 Fixpoint has_greedy (h : hir) : bool :=
